@@ -20,6 +20,7 @@ import (
 	pg "github.com/cossacklabs/acra/decryptor/postgresql"
 	"github.com/cossacklabs/acra/encryptor/base/config"
 	"github.com/cossacklabs/acra/sqlparser"
+	acrautils "github.com/cossacklabs/acra/utils"
 
 	"verifharness/internal/core"
 )
@@ -372,4 +373,63 @@ func rowsEqual(a, b Row) bool {
 		}
 	}
 	return true
+}
+
+// ---------- bytea text codecs (utils) ----------
+
+func init() {
+	core.Register("C12.bytea.octal.enc", func(a []string) string { return core.Hex(acrautils.EncodeToOctal(core.UnHex(a[0]))) })
+	core.Register("C12.bytea.octal.dec", func(a []string) string {
+		out, err := acrautils.DecodeOctal(core.UnHex(a[0]))
+		if err != nil {
+			return core.Err
+		}
+		return core.OkHex(out)
+	})
+	core.Register("C12.bytea.hex.enc", func(a []string) string { return core.Hex(acrautils.PgEncodeToHex(core.UnHex(a[0]))) })
+	core.Register("C12.bytea.escaped.dec", func(a []string) string {
+		out, err := acrautils.DecodeEscaped(core.UnHex(a[0]))
+		if err == acrautils.ErrDecodeOctalString {
+			return "err-octal"
+		}
+		if err != nil {
+			return "err-hex"
+		}
+		return core.OkHex(out)
+	})
+	// a DataRow through the real decoder → encoder subscribers without any column setting
+	core.Register("C12.pg.chain", func(a []string) string {
+		fmts := parseNats(a[0])
+		ph, _ := newPgHandler("db", core.UnHex(a[1]))
+		if err := ph.ReadPacket(); err != nil {
+			return core.Err
+		}
+		dec, _ := pg.NewPgSQLDataDecoderProcessor()
+		enc, _ := pg.NewPgSQLDataEncoderProcessor()
+		proxy, ctx := newPgProxy("", dec, enc)
+		var err error
+		if len(fmts) == 0 {
+			err = proxy.VerifAddPendingQuery("select 1")
+		} else {
+			var bind bytes.Buffer
+			bind.Write([]byte{0, 0, 0, 0, 0, 0})
+			binary.Write(&bind, binary.BigEndian, uint16(len(fmts)))
+			for _, f := range fmts {
+				binary.Write(&bind, binary.BigEndian, f)
+			}
+			bp, berr := pg.NewBindPacket(bind.Bytes())
+			if berr != nil {
+				panic("harness: bind: " + berr.Error())
+			}
+			err = proxy.VerifAddPendingExtendedQuery("", "select 1", bp)
+		}
+		if err != nil {
+			panic("harness: pending: " + err.Error())
+		}
+		if err := proxy.VerifHandleDatabasePacket(ctx, ph, quietLogger); err != nil {
+			return core.Err
+		}
+		out, _ := ph.Marshal()
+		return core.OkHex(out)
+	})
 }
